@@ -26,7 +26,8 @@ pub fn op_alphabet(f: Family, level: u8) -> Vec<Op> {
 		ops.push(Op::Push(s));
 	}
 	// arguments only (never initial states): spellings that merely DECODE to a dot segment
-	for s in ["%2E%2E", "%2e", "%c3%a9"] {
+	// ... and an escape that is not UTF-8 at all (the octets of a segment are arbitrary)
+	for s in ["%2E%2E", "%2e", "%c3%a9", "%FF"] {
 		ops.push(Op::Push(domains::b(s)));
 		ops.push(Op::SymPush(domains::b(s)));
 	}
